@@ -156,7 +156,7 @@ def gen_case(rng, idx):
     return dict(machine=dict(w=w, h=h, res=caps, exc=exc, dead=[list(c) for c in dead], dead_links=dead_links),
                 vres=vres, nets=nets, constraints=cons, vorder=vorder, corder=corder,
                 effort=rng.choice([0, 0.1, 1]), seed=rng.randrange(1 << 30), mode=mode, idx=idx,
-                sa_steps=rng.choice([0, 50, 200, 400]))
+                sa_steps=rng.choice([0, 50, 100, 300]))
 
 
 def enumerate_small():
